@@ -208,6 +208,11 @@ def check(ctx, src):
             ctx.check(bool(used), "R-SLOT", key, f"slot parameter `{pname}` is never read: that sub-form is silently dropped", comp.rm.rel, f.lineno,
                       witness="any form in that slot", detail=f"{len(used)} reads")
     ctx.floor("R-SLOT", 80)
+    from . import c05
+    from .. import core
+
+    ctx.rule("FN-SHAPE", "an annotation form is never emitted where Python ignores it (a Lambda): has_annotations looks at all five parameter groups and the return annotation")
+    core.transfer(ctx, src, c05, {"FN-SHAPE"}, key_filter=lambda k: "has_annotations" in k or "lambda-condition" in k)
 
     # --- unpack exhaustiveness -----------------------------------------------------------------------
     cc = comp.cp.func("HyASTCompiler._compile_collect")
